@@ -270,11 +270,12 @@ def classify(line, impl, spec):
 
 
 def kind_of(lines):
+    k = "?"
     for l in lines:
         w = l.split(" ")
         if w[0] == "opt" and len(w) >= 3 and w[1] == "0":
-            return w[2]
-    return "?"
+            k = w[2]
+    return k
 
 
 def count_decay_clip(streams_out):
@@ -318,7 +319,8 @@ def count_decay_clip(streams_out):
     return n_both, n_clipped
 
 
-def report_violations(chk, judged, quick, max_shrunk=3, max_reports=8):
+def report_violations(chk, judged, quick, max_shrunk=3, max_reports=8, use_spec=True, judge_line=None,
+                      expected="the equations / documented behaviour give"):
     """One report per (algorithm, operation, failure class); the first few are shrunk."""
     groups = {}
     for j in judged:
@@ -328,26 +330,25 @@ def report_violations(chk, judged, quick, max_shrunk=3, max_reports=8):
     for n, ((kind, op, cls), (hist, j)) in enumerate(sorted(groups.items(), key=lambda kv: kv[0])):
         if n >= max_reports:
             break
-        small, im, sp, at = hist, j["impl"], j.get("spec", ""), len(hist) - 1
+        small, im, sp, at = hist, j["impl"], (j.get("spec", "") if use_spec else j.get("what", "")), len(hist) - 1
         if n < max_shrunk:
             def still(c, op=op, cls=cls):
-                f = ol.fails_on_impl(c)
+                f = ol.fails_on_impl(c, use_spec, judge_line)
                 return f is not None and classify(c[f[0]], f[1], f[2]) == (op, cls)
             if still(hist):
                 small = vcheck.shrink(hist, still, max_runs=30 if quick else 60)
-                f = ol.fails_on_impl(small)
+                f = ol.fails_on_impl(small, use_spec, judge_line)
                 if f is not None:
                     small, at, im, sp = small[: f[0] + 1], f[0], f[1], f[2]
         key = ("optim:%s:%s:%s:%s" % (kind, op, cls, " | ".join(small)))[:900]
-        chk.report(key, "%s history: `%s` -> implementation `%s`, the equations / documented behaviour give `%s`" % (
-            kind, small[at], im[:200], sp[:200]),
+        chk.report(key, "%s history: `%s` -> implementation `%s`, %s `%s`" % (
+            kind, small[at], im[:200], expected, sp[:200]),
             {"family": "optim", "harness": "h_optim", "stateful": True, "lines": small, "expected_spec": sp, "observed_impl": im})
 
 
 def run(chk):
     quick = chk.tier == "quick"
-    tr.generate()
-    T = Table()
+    T = None
     chk.rule = ("training histories on one optimizer generated from one PRNG: algorithm (six), hyper-parameters (constructor defaults, "
                 "random, or dyadic), 1-3 parameters of shapes []..[2,1,2] plus an unregistered bystander, then up to %d steps drawn from "
                 "{write gradients + update + observe, setters (also negative, -0, 0), set_epoch, set_configs with one key (own, base, "
@@ -356,7 +357,8 @@ def run(chk):
                 "specification (Spec/Optimizers.lean). SGD/MomentumSGD histories on dyadic data are compared exactly as rationals, the "
                 "others in float32 within rel 2^-18 (model) / 2^-11 (specification). Non-trivial = the call succeeded; distinct = "
                 "distinct operation lines.") % (30 if quick else 200)
-    chk.obligations(MODS, drivers=["optim"])
+    ol.obligations_with_gen(chk, MODS, tr.generate, tr.OUT)
+    T = Table()
     if tr.differs_from_golden():
         chk.notes.append("Gen/Optimizers.lean differs from translate/golden/Optimizers.lean (the optimizer sources changed since the golden copy was taken)")
     n_hist = 200 if quick else 5000
